@@ -1148,6 +1148,30 @@ def _(E, c):
     return ok(some(old), c.dest_ty)
 
 
+@model('AmtImpl::batch_delete', 'Amt::batch_delete')
+def _(E, c):
+    """batch_delete(keys, strict): deletes every key; strict => error when a key is absent.  returns Ok(modified)"""
+    m = map_of(E, c.args[0])
+    it = as_iter(E, c.args[1])
+    strict = E.deref(c.args[2])
+    modified = False
+    while True:
+        k = it.next(E)
+        if k is None:
+            break
+        kv = E.deref(k)
+        kt = key_term(E, kv)
+        pres, old = map_lookup(E, m, kt, kv)
+        if pres:
+            m = map_set(m, kt, False, None, kv)
+            modified = True
+        elif (strict is True) or (not isinstance(strict, bool) and E.ctx.branch(strict)):
+            E.store(c.args[0], m)
+            return err(OpaqueV('AmtError'), c.dest_ty)
+    E.store(c.args[0], m)
+    return ok(modified, c.dest_ty)
+
+
 @model('AmtImpl::count', 'Amt::count')
 def _(E, c):
     m = map_of(E, c.args[0])
@@ -1768,6 +1792,18 @@ def _(E, c):
     return OpaqueV('anyhow')
 
 
+@model('re:^<(Option|Result) as Context>::(context|with_context)$')
+def _(E, c):
+    """anyhow::Context: Option -> Result<_, anyhow::Error>; Result keeps its value, the error becomes an anyhow error"""
+    n, v = variant(E, c.args[0])
+    if n in ('Some', 'Ok'):
+        return ok(payload(E, v, n), c.dest_ty)
+    if n == 'Err':
+        inner = E.deref(payload(E, v, 'Err'))
+        return err(inner if isinstance(inner, OpaqueV) and inner.kind == 'anyhow' else OpaqueV('anyhow', inner if isinstance(inner, (StructV, LazyV)) else None), c.dest_ty)
+    return err(OpaqueV('anyhow'), c.dest_ty)
+
+
 # =======================================================================================
 # byte strings of unknown content / length (only measured, compared, hashed or forwarded)
 
@@ -2004,6 +2040,52 @@ def _(E, c):
     if isinstance(v, BitSetV):
         return IntV(len(v.bits), 'u64')
     return IntV(z3.Int(v.name + '#card'), 'u64')
+
+
+def _bf(E, v):
+    v = E.deref(v)
+    if isinstance(v, LazyV):
+        v = E.materialize(v.ty, v.name)
+    return v
+
+
+def _card(v):
+    return z3.Int(v.name + '#card')
+
+
+@model('BitField::slice')
+def _(E, c):
+    """cardinality model: the first `len` set bits after skipping `start`: a subset of the source with exactly len bits,
+    an error when the source has fewer than start + len bits"""
+    v = _bf(E, c.args[0])
+    if not isinstance(v, BitFieldV):
+        return NotImplemented
+    start, ln = E.deref(c.args[1]).v, E.deref(c.args[2]).v
+    if E.ctx.branch(start + ln > _card(v)):
+        return err(OpaqueV('BitFieldError'), c.dest_ty)
+    nm = E.ctx.fresh_name('bf_slice')
+    E.ctx.assume(z3.Int(nm + '#card') == ln)
+    E.ctx.memo[('subset', nm, v.name)] = True
+    return ok(BitFieldV(nm), c.dest_ty)
+
+
+@model('re:^<&?BitField as Sub(<&?BitField>)?>::sub$', 're:^<BitField as SubAssign(<&?BitField>)?>::sub_assign$')
+def _(E, c):
+    a, b = _bf(E, c.args[0]), _bf(E, c.args[1])
+    if not (isinstance(a, BitFieldV) and isinstance(b, BitFieldV)):
+        return NotImplemented
+    nm = E.ctx.fresh_name('bf_sub')
+    n = z3.Int(nm + '#card')
+    if E.ctx.memo.get(('subset', b.name, a.name)):
+        E.ctx.assume(n == _card(a) - _card(b))
+    else:
+        E.ctx.assume(z3.And(n >= 0, n <= _card(a), n >= _card(a) - _card(b)))
+    E.ctx.memo[('subset', nm, a.name)] = True
+    r = BitFieldV(nm)
+    if c.callee.idents[-1] == 'sub_assign':
+        E.store(c.args[0], r)
+        return UNIT
+    return r
 
 
 @model('BitField::new_symbolic_unused')
